@@ -82,7 +82,12 @@ func (r *Response) SetRequestAccepts(mime string) {
 // can write according to what the request wants (Accept) and what the Route can produce or what the restful defaults say.
 // If called before WriteEntity and WriteHeader then a false return value can be used to write a 406: Not Acceptable.
 func (r *Response) EntityWriter() (EntityReaderWriter, bool) {
-	sorted := sortedMimes(r.requestAccept)
+	accept := r.requestAccept
+	if len(accept) == 0 {
+		// no Accept header means any media type is acceptable (RFC 7231 5.3.2) ; the router admitted the request on that ground
+		accept = "*/*"
+	}
+	sorted := sortedMimes(accept)
 	for _, eachAccept := range sorted {
 		for _, eachProduce := range r.routeProduces {
 			if eachProduce == eachAccept.media {
